@@ -141,6 +141,21 @@ pub fn check(q: &PolyQ, part: &mut Part) -> Option<Viol> {
       if a > limit {
         return mk(api, "not-tight", format!("every cell centre within {:e} + 2 * {:e} of the centre of the bounding cone", q.radius, max_c2v(de)), format!("cell {}/{} has its centre at {:e}", de, h, a));
       }
+      // a coarse entry stands for all its descendants: the cells of the requested depth at its four corners
+      if de < out.depth_max {
+        let dm = out.depth_max;
+        let sh = 2 * (dm - de) as u32;
+        let ones = (1u64 << sh) - 1;
+        let limit = q.radius + 2.0 * max_c2v(dm) + 1e-9;
+        for hh in [h << sh, (h << sh) | (ones & 0x5555555555555555), (h << sh) | (ones & 0xAAAAAAAAAAAAAAAA), (h << sh) | ones] {
+          let (xc, yc) = center_plane(dm, hh);
+          let (l, b) = ref_unproj(xc, yc);
+          let a = ang_dist_vec(&unit_vec(l, b), &c);
+          if a > limit {
+            return mk(api, "not-tight", format!("every cell centre within {:e} + 2 * {:e} of the centre of the bounding cone", q.radius, max_c2v(dm)), format!("cell {}/{}, a descendant of the entry {}/{}, has its centre at {:e}", dm, hh, de, h, a));
+          }
+        }
+      }
     }
     // honest full flag (convex polygons)
     if full && q.convex {
